@@ -90,6 +90,7 @@ class KindAnalysis:
         self.cfg = CFG(fn_node)
         self.init = init or State()
         self._text_memo = {}
+        self._flags = {}
 
     # ------------------------------------------------------------ expressions
     def is_table(self, e):
@@ -269,7 +270,29 @@ class KindAnalysis:
             if not new:
                 return None
             return st.set(v, new)
+        if isinstance(test, ast.Name) and test.id in self._flags:
+            # a named type test: `is_func = isinstance(value, tuple)` ... `if is_func:`
+            expr, subject = self._flags[test.id]
+            if self._single_binding(subject) and self._single_binding(test.id):
+                return self.refine(expr, pol, st)
+            return State(st.items, True)
+        # a test this analysis does not understand that mentions a value whose kind is still open
+        # (type(v) is tuple, hasattr(v, ..), len(v) == 2, a flag computed elsewhere): not precise from here on
+        for n in ast.walk(test):
+            if isinstance(n, ast.Name):
+                k = st.get(n.id)
+                if k is not None and len(k - {U}) > 1:
+                    return State(st.items, True)
+                if n.id in self._flags:
+                    return State(st.items, True)
         return st
+
+    def _single_binding(self, name):
+        c = 0
+        for x in self._walk(self.fn):
+            if isinstance(x, ast.Name) and x.id == name and isinstance(x.ctx, (ast.Store, ast.Del)):
+                c += 1
+        return c <= 1
 
     # ------------------------------------------------------------------ uses
     def scan_uses(self, root, st):
@@ -386,6 +409,16 @@ class KindAnalysis:
                             break
         for k, _ in self.init.items:
             self._tracked_names.add(k)
+        # boolean flags that name a type test on some value
+        self._flags = {}
+        for x in self._walk(self.fn):
+            if isinstance(x, ast.Assign) and len(x.targets) == 1 and isinstance(x.targets[0], ast.Name):
+                v = x.value
+                inner = v.operand if isinstance(v, ast.UnaryOp) and isinstance(v.op, ast.Not) else v
+                if isinstance(inner, ast.Call) and isinstance(inner.func, ast.Name) and inner.func.id == "isinstance" and len(inner.args) == 2 and isinstance(inner.args[0], ast.Name):
+                    self._flags[x.targets[0].id] = (v, inner.args[0].id)
+                elif isinstance(inner, ast.Compare) and len(inner.ops) == 1 and isinstance(inner.ops[0], (ast.Is, ast.IsNot)) and isinstance(inner.left, ast.Name) and isinstance(inner.comparators[0], ast.Constant) and inner.comparators[0].value is None:
+                    self._flags[x.targets[0].id] = (v, inner.left.id)
         for x in self._walk(self.fn):
             if isinstance(x, ast.Assign) and len(x.targets) == 1 and isinstance(x.targets[0], ast.Subscript) and (self.is_table(x.targets[0].value) or (self.cache_name and unparse(x.targets[0].value) == self.cache_name)) and isinstance(x.value, ast.Name):
                 self._tracked_names.add(x.value.id)
